@@ -48,6 +48,7 @@ type harness struct {
 	drains   int
 
 	mu   sync.Mutex
+	dmu  sync.Mutex
 	hist []ev
 	ops  map[string]int
 }
@@ -116,6 +117,10 @@ func (h *harness) append(e ev) {
 // The reorg feed is read first: storeTask sends the reorg notification before the
 // new head.
 func (h *harness) drain() {
+	// all drain points are on the serial store pipeline on a correct synchroniser; the lock only
+	// keeps the monitor's own state consistent when the code under test breaks that rule
+	h.dmu.Lock()
+	defer h.dmu.Unlock()
 	for {
 		select {
 		case r, ok := <-h.reorgs.Recv():
@@ -200,6 +205,18 @@ func (h *harness) listener() *jsync.SelectiveListener {
 				} else {
 					e.Diff = contentDiff(want.Block, want.SU, blk, su)
 				}
+			}
+			// directed interleaving: the controller reorganises the source while this callback - and
+			// with it storeTask, before the block's announcements - is still running. The store
+			// pipeline is serial, so nothing may happen to the head until the callback returns.
+			if hk := h.src.cbHook.Swap(nil); hk != nil {
+				hk.entered <- int64(n)
+				wd := time.NewTimer(60 * time.Second) // watchdog only
+				select {
+				case <-hk.release:
+				case <-wd.C:
+				}
+				wd.Stop()
 			}
 			h.append(e)
 		},
@@ -324,6 +341,26 @@ func genCase(rng *rand.Rand, idx int, quick bool) caseCfg {
 		c.CleanHeader, c.MinFork = true, 0
 		c.Script = []action{{After: 30 + rng.IntN(60), Kind: "reorg", Rel: true, Depth: 1 << 20, LenMode: -1, K: 0}}
 		return c
+	case 11, 13:
+		// The node follows the tip. The source adds 1-3 blocks and, while the node is inside the
+		// store callback of the first of them (announcements not yet made), replaces a suffix
+		// ending at or just below that block by one of the same or a smaller length (11) / any
+		// length (13: also deeper, possibly in catch-up mode on a long chain).
+		c.Template = "reorg-inside-store-callback:tip"
+		c.CleanHeader, c.MinFork = true, 1
+		c.InitialLen = 4 + rng.IntN(9)
+		cb := action{Kind: "cbreorg", Depth: rng.IntN(2), LenMode: -rng.IntN(2), K: rng.IntN(1 << 16)}
+		if idx%16 == 13 {
+			c.Template = "reorg-inside-store-callback:any"
+			if rng.IntN(2) == 0 {
+				c.InitialLen = 30 + rng.IntN(20)
+			}
+			cb.Depth, cb.LenMode = rng.IntN(4), rng.IntN(3)-1
+			c.Script = []action{{After: 2 + rng.IntN(30), Kind: "extend", K: 1}, cb, {After: 5 + rng.IntN(20), Kind: "extend", K: 1 + rng.IntN(2)}}
+			return c
+		}
+		c.Script = []action{{Kind: "sync"}, {After: 1 + rng.IntN(5), Kind: "extend", K: 1 + rng.IntN(3)}, cb, {After: 10 + rng.IntN(20), Kind: "extend", K: 1}}
+		return c
 	case 6, 7, 9:
 		// The node is at the source's tip N. The source replaces the last 1-3 blocks and
 		// adds one; storing N+1' fails on its parent, and the one request revertTask then
@@ -396,6 +433,8 @@ func genCase(rng *rand.Rand, idx int, quick bool) caseCfg {
 		case x < 4 && long && i < 4:
 			a.Kind, a.K = "attack", rng.IntN(3)
 			a.After = 1 + rng.IntN(30)
+		case x == 4 && i > 0:
+			a.Kind, a.Depth, a.LenMode, a.K = "cbreorg", rng.IntN(4), rng.IntN(3)-1, rng.IntN(1<<16)
 		default:
 			a.Kind = "reorg"
 			a.Rel = rng.IntN(3) != 0
@@ -813,7 +852,7 @@ func runCase(t *testing.T, r *lib.Run, idx int) {
 	for _, a := range ctl.log {
 		kinds[a.Kind]++
 		r.Count("source_change."+a.Kind, 1)
-		if a.Kind == "reorg" || a.Kind == "attack" {
+		if a.Kind == "reorg" || a.Kind == "attack" || a.Kind == "reorg-inside-store-callback" {
 			switch d := int64(a.Fork) - (a.LocalAt + 1); {
 			case d > 0:
 				r.Count("reorg.fork_point_above_local_head", 1)
